@@ -299,7 +299,7 @@ def crash_kind(stderr, rc):
     return "crash:rc%d" % rc
 
 
-def run_impl(exe, cases, env=None, max_restarts=40, per_batch_timeout=1800):
+def run_impl_serial(exe, cases, env=None, max_restarts=40, per_batch_timeout=1800):
     """Feeds the cases to the harness; a dying harness is an answer for the case it was
     executing (crash:<kind>) and the run resumes behind it."""
     answers = []
@@ -344,6 +344,25 @@ def run_impl(exe, cases, env=None, max_restarts=40, per_batch_timeout=1800):
         if restarts > max_restarts:
             answers.extend(["skipped"] * (len(cases) - len(answers)))
             break
+    return answers, crashes
+
+
+def run_impl(exe, cases, env=None, jobs=None, max_restarts=40):
+    """Parallel front end of run_impl_serial: contiguous chunks, one harness process each."""
+    jobs = jobs or min(16, os.cpu_count() or 4)
+    if len(cases) < 400 or jobs <= 1:
+        return run_impl_serial(exe, cases, env, max_restarts)
+    from concurrent.futures import ThreadPoolExecutor
+    n = len(cases)
+    size = (n + jobs - 1) // jobs
+    chunks = [(k, cases[k:k + size]) for k in range(0, n, size)]
+    per = max(3, max_restarts // len(chunks) + 2)
+    with ThreadPoolExecutor(len(chunks)) as ex:
+        res = list(ex.map(lambda c: run_impl_serial(exe, c[1], env, per), chunks))
+    answers, crashes = [], []
+    for (k, _), (a, cr) in zip(chunks, res):
+        answers.extend(a)
+        crashes.extend((k + i, kind, err) for i, kind, err in cr)
     return answers, crashes
 
 
